@@ -48,7 +48,8 @@ Consecutive chain entries have strictly decreasing dissimilarities (a push happe
 strict `<` test), and entries below the top three are untouched by a merge, so as long as every
 chain entry is a distinct live cluster the length is ≤ n.  Distinctness is the nearest-neighbour
 chain invariant; it is a theorem for reducible update formulas in exact arithmetic and is NOT
-proved here for rounded arithmetic (average/Ward are not exactly reducible in floats).  The
+proved here for rounded arithmetic (for the clamped average / Ward of the repaired crate it follows
+from `OrderLaws`: `chainReducible_average`, `chainReducible_ward`, `Lemmas/ChainIter.lean`).  The
 correspondence run compares the allocation count of every nnchain call exactly, so a chain that
 outgrew n would be reported.
 
